@@ -49,6 +49,7 @@ PropSchema ==
          /\ it.uid = u /\ it.alias = c.alias /\ it.kind = c.kind /\ it.tracked = (u \in DOMAIN trk)
          /\ it.ok = r.ok
          /\ r.ok => /\ it.type = TypeStr(r.type)
+                    /\ it.vc = r.vc
                     /\ it.args = [k \in DOMAIN r.args |-> [name |-> r.args[k].name, type |-> TypeStr(r.args[k].type)]]
          /\ ToSet(it.deps) = Deps(cst, u)
     /\ seen.sameAsReloaded            \* clause (ii): the incremental state equals a copy reloaded from the saved document
